@@ -1051,6 +1051,63 @@ def d15_alias_option_table(chk: Check) -> None:
                          got, want[m]))
 
 
+def d17_loaded_means_a_document(chk: Check) -> None:
+    """yaml-merge takes element [0] of its document lists (the prime
+    left-hand document, the document whose type decides the output format).
+    That is safe only because a successfully loaded source always
+    contributes at least one document -- an empty file holds no YAML
+    document at all, so the loader loop appends nothing for it.  The
+    routine that builds the list therefore ends by turning "loaded, but no
+    document" into one empty document (or into a failure)."""
+    prog = chk.prog
+    chk.rule("C16-D17", "get_doc_mergers never reports success with an "
+             "empty list: an emptiness test on the list, followed by an "
+             "append or a failure, precedes the final return", floor=1)
+    fi = prog.func("yaml_merge.get_doc_mergers")
+    rets = [r for r in fi.node.body if isinstance(r, ast.Return)]
+    if len(rets) != 1 or not (isinstance(rets[0].value, ast.Tuple) and
+                              len(rets[0].value.elts) == 2):
+        raise AnalysisError("final return of get_doc_mergers not found")
+    lst, flag = [src(e) for e in rets[0].value.elts]
+    subs = []
+    for q in ("yaml_merge.merge_condense_all", "yaml_merge.write_output_"
+              "document"):
+        f2 = prog.func(q)
+        subs += [x for x in walk_local(f2.node)
+                 if isinstance(x, ast.Subscript) and src(x.slice) == "0"
+                 and isinstance(x.value, ast.Name)
+                 and x.value.id in f2.params()]
+    if not subs:
+        raise AnalysisError("consumers taking element [0] not found")
+    ok = None
+    for st in fi.node.body:
+        if not isinstance(st, ast.If):
+            continue
+        t = src(st.test).replace(" ", "")
+        empt = any(p_ in t for p_ in (
+            "len({})<1".format(lst), "len({})==0".format(lst),
+            "not{}".format(lst), "notlen({})".format(lst)))
+        acts = any(isinstance(c, ast.Call) and
+                   src(c.func) == lst + ".append"
+                   for b in st.body for c in ast.walk(b)) or any(
+            isinstance(a, ast.Assign) and src(a.targets[0]) == flag and
+            src(a.value) == "False" for b in st.body for a in ast.walk(b))
+        if empt and acts and st.lineno < rets[0].lineno:
+            ok = st
+    text = "return ({}, {})".format(lst, flag)
+    if ok is not None:
+        chk.ok("C16-D17", fi, ok, text,
+               "`{}` makes the list non-empty (or the load a failure); {} "
+               "consumer(s) take element [0]".format(src(ok.test),
+                                                    len(subs)))
+    else:
+        chk.fail("C16-D17", fi, rets[0], text,
+                 "a source that loads but holds no document (an empty "
+                 "file) yields ([], True): merge_condense_all / "
+                 "write_output_document then take element [0] of an empty "
+                 "list and yaml-merge ends in an IndexError traceback")
+
+
 def run(chk: Check) -> None:
     prog = chk.prog
     funcs = cli_functions(prog)
@@ -1071,6 +1128,7 @@ def run(chk: Check) -> None:
     d10_twin_arms(chk)
     d11_value_as_supplied(chk)
     d15_alias_option_table(chk)
+    d17_loaded_means_a_document(chk)
     from rules.shared import shared_state_rule
     shared_state_rule(chk, "C16-D12", sorted({f.module.relpath
                                           for f in funcs}), 40)
@@ -1080,3 +1138,6 @@ def run(chk: Check) -> None:
     from rules.shared import shared_dest_defaults_rule
     shared_dest_defaults_rule(chk, "C16-D14", sorted({f.module.relpath
                                                   for f in funcs}), 1)
+    from rules.shared import loop_shadowing_rule
+    loop_shadowing_rule(chk, "C16-D16", sorted({f.module.relpath
+                                            for f in funcs}), 40)
